@@ -142,6 +142,7 @@ def swap_alphabet(n, env):
     sw = [((0, 1), (1, 0)), ((1, 2), (2, 1)), ((2, 3), (3, 2)), ((3, 4), (4, 3)), ((0, 4), (4, 0)),
           ((1, 2), (2, 3), (3, 1)), ((2, 4), (4, 2)), ((0, 1), (1, 2), (2, 0))]
     ops = [("sw", s_) for s_ in sw if max(max(p_) for p_ in s_) < n]
+    ops.append(("sw", ()))          # the empty dictionary: what a cancelled pair of swaps leaves behind
     ops += [("bs", 0, 1, env.R2, "Rx", 0), ("ps", n - 1, env.PH[0], 0), ("loss", 2, env.L[1]),
             ("uni", 2, 1, False), ("add", "bs2", n - 2, True), ("bar", None),
             ("add", "h3mid", n - 2, False), ("add", "h3io", 1, False)]
@@ -196,7 +197,7 @@ def run(tier, seed):
             nher = sum(1 for o in prog if o[0] == "add" and o[1] != "bs2")
             if nsw < 2 or (tier == "quick" and len(prog) == d2 and nsw < 3 and not (nher == 1 and prog[-1][0] == "add")):
                 continue
-            for seq in (seqs2c[:1] + seqs2c[2:3] if tier == "quick" else seqs2c):
+            for seq in (seqs2c[:1] + seqs2c[2:3] + (seqs2c[1:2] if nsw >= 3 else []) if tier == "quick" else seqs2c):
                 a.tick("executions"); a.tick("transitions", len(seq)); a.tick("stage2_cases")
                 run_case(n2, prog, seq, env, a)
         return a
